@@ -231,6 +231,28 @@ func stallSite(dump string) string {
 // note accumulates scheduler statistics of one simrt.Exec.
 func (x *xctx) note(res simrt.Result) {
 	atomic.AddInt64(&liveCtr, 1)
+	if x.tracing && res.Switches > 0 && len(res.Trace) > 0 {
+		// the schedule of this execution: context switches and the I/O, lock and
+		// channel events around them (the last 120 events of interest)
+		var lines []string
+		for _, e := range res.Trace {
+			switch {
+			case e.Kind == "switch-to":
+				lines = append(lines, fmt.Sprintf("  [%d] task %d -> task %d", e.Seq, e.Task, e.A))
+			case strings.HasPrefix(e.Kind, "io:"):
+				lines = append(lines, fmt.Sprintf("  [%d] task %d %s %s", e.Seq, e.Task, e.Kind[3:], e.S))
+			case e.Kind == "block":
+				lines = append(lines, fmt.Sprintf("  [%d] task %d blocks", e.Seq, e.Task))
+			case e.Kind == "kill":
+				lines = append(lines, fmt.Sprintf("  [%d] task %d: process killed here", e.Seq, e.Task))
+			}
+		}
+		if len(lines) > 120 {
+			lines = append([]string{fmt.Sprintf("  ... %d earlier events", len(lines)-120)}, lines[len(lines)-120:]...)
+		}
+		x.trace = append(x.trace, fmt.Sprintf("schedule of execution %d (%d context switches):", x.execs+1, res.Switches))
+		x.trace = append(x.trace, lines...)
+	}
 	x.execs++
 	x.steps += res.Steps
 	x.simNs += res.SimTimeNs
@@ -302,6 +324,8 @@ func keys(m map[string]bool) []string {
 func execEngine(e *engine, tape *simrt.Tape, seed uint64, tier string, tracing bool) (x *xctx, v *violation) {
 	x = newX(tape, seed, tier)
 	x.tracing = tracing
+	simrt.TraceAll = tracing
+	defer func() { simrt.TraceAll = false }()
 	defer func() {
 		if r := recover(); r != nil {
 			v = violf("harness-panic", "panic outside simulated tasks: %v\n%s", r, debug.Stack())
